@@ -15,6 +15,73 @@ CHECKS = {
             "definition are model-checked exhaustively on a grid of small points (spec/PchkModel.tla).",
             "Trusts the transcription of the RFC pseudo-code and the OF_VERIF pchk_done hook; bounded grid of (k,r,N1,seed).",
             "TLA+ definition (PchkRfc5170) + TLC trace validation of recorded set_fec_parameters lines (PchkTrace)", "5/C05"),
+    "C01": (MC, "Soundness of all decoders. Implementation-shaped TLA+ model of the IT decoder (spec/LdpcIt.tla) explored by TLC over every "
+            "arrival sequence of several LDPC parameter points with invariant Sound (every available symbol equals the encoded one, as "
+            "coefficient vectors). Conformance: exhaustive received subsets of small codes and random histories of all three codecs, both "
+            "submission APIs, callbacks on/off, with and without of_finish_decoding, are run in the real library with identity payloads and "
+            "every of_get_source_symbols_tab entry is validated by TLC (spec/ApiTrace.tla: entry = unit vector, complete => all available).",
+            "Linearity of the codecs (identity payload = coefficient vector); bounded parameter points; random-payload runs compare bytes in the driver only as a net.",
+            "TLC model checking (LdpcIt) + TLC trace validation of recorded API histories (ApiTrace)", "5/C01"),
+    "C02": (MC, "RS MDS property stated on the API-level specification (ApiTrace: an RS session is complete iff >= k distinct symbols were "
+            "submitted and a decode trigger occurred; finish returns FAILURE below k). All 2^n received subsets of every (k,n) up to a bound, "
+            "both RS codecs, m=4 and 8, both APIs, several orders, plus sampled subsets up to n=255 are run in the real decoders and validated by TLC; "
+            "decoded symbols must be unit vectors. GF2mModel.tla checks exhaustively that the evaluation points are pairwise distinct.",
+            "MDS of the mathematical code follows from distinct evaluation points (checked) and the generator being V_rest*V_top^-1 (checked per row in C06).",
+            "TLC trace validation (ApiTrace) + TLC field lemmas (GF2mModel)", "5/C02"),
+    "C03": (MC, "ApiTrace decides, from the session's own parity-check equations only (GF2!SourceDetermined: Gauss-Jordan on sets), whether the "
+            "received set determines all sources, and requires of_finish_decoding to complete exactly then; all 2^n subsets of several small "
+            "LDPC points in several orders and both APIs, plus random histories around the decoding threshold with different libc rand() seeds.",
+            "Equations of the session taken from the pchk_done hook; C05 ties them to RFC 5170. Bounded points.",
+            "TLC trace validation against a definitional solvability oracle (GF2.tla)", "5/C03"),
+    "C04": (MC, "TLC explores the implementation-shaped IT decoder model (LdpcIt.tla) over every arrival sequence with repetitions and checks "
+            "that it refines the definitional peeling closure (invariant ItIsPeeling) and keeps its counters/partial sums consistent. "
+            "Conformance: after every of_decode_with_new_symbol of exhaustive and random streaming histories the real decoder's available "
+            "set and completion flag are validated by TLC against PeelClosure of the session's equations (ApiTrace).",
+            "The null last repair symbol counts as known exactly when the session claims it (API-visible); bounded points.",
+            "TLC model checking (LdpcIt refinement) + TLC trace validation (ApiTrace)", "5/C04"),
+    "C06": (MC, "Every built repair symbol of encoder sessions (identity payloads, so the symbol is the generator row) is validated by TLC: RS rows "
+            "must satisfy g*V_top = V[esi] over GF(2^m) built from the primitive polynomials (GF2m.tla; both RS codecs against the same spec, "
+            "hence byte compatibility), LDPC rows must make their parity equation sum to zero; output slot origin (application / library for "
+            "NULL) and checksums of source buffers are part of the action's post-condition. GF2mModel justifies the derived field operators exhaustively.",
+            "Generator rows observed through identity payloads (linearity; kernels C13).",
+            "TLC trace validation (ApiTrace!DoBuild with GF2m) + TLC field model (GF2mModel)", "5/C06"),
+    "C07": ("exploration", "Sanitizer-observed conformance runs driven by the specification's protocol: lengths 1..33, five alignments, parameter "
+            "limits, release at every point, random histories of all codecs run under AddressSanitizer with exact-size application buffers, "
+            "guard bytes, checksums of every application buffer and pointer table after every call (validated as post-conditions by ApiTrace); "
+            "an ASan report or crash becomes a MemFault trace line that no specification action accepts.",
+            "Memory safety is observed, not proved: only the executed histories are covered.",
+            "spec-driven histories under ASan; buffer contract validated by TLC (ApiTrace)", "5/C07"),
+    "C08": (MC, "Allocation ledger (--wrap malloc/calloc/realloc/free) attributed per session; ApiTrace requires at Release: status OK, no live "
+            "library block left except decoded source symbols handed to the application, nothing freed that the library did not allocate "
+            "(double free = ASan MemFault). Release is issued at every point of small life cycles (unconfigured, configured, after each call, "
+            "after failed/successful finish) and at the end of random histories.",
+            "Ledger observes malloc-family calls made while a library call is active; stdio buffers pre-allocated.",
+            "TLC trace validation of ledger observations (ApiTrace!DoRelease)", "5/C08"),
+    "C09": (MC, "Finite boundary grid (0, 1, each limit, limit+1, 2^16, 2^31, 2^32-1; seeds around the signed range; m in 0..16) per codec: "
+            "TLC compares every of_set_fec_parameters status with ParamCheck!InLimits (advertised limits read from the session), validates "
+            "full encode/decode cycles on accepted boundary points with ApiTrace, and every single-argument corruption (NULL session, ESI "
+            "out of range, wrong role, NULL table/buffer) inside otherwise valid life cycles that must then still complete correctly.",
+            "Exhaustive over the boundary grid, not over all 2^32 values per field.",
+            "TLC trace validation (ParamTrace + ApiTrace)", "5/C09"),
+    "C10": (MC, "ApiTrace post-conditions: finish status OK iff complete afterwards / FAILURE iff not, decode_with_new_symbol and "
+            "set_available_symbols return OK, is_decoding_complete equals 'all k available' and never reverts, received source symbols keep "
+            "the application's pointer; validated on exhaustive subsets with queries after every call, finish when already complete, double "
+            "finish, nothing received, both APIs, and random histories.",
+            "Bounded points; same trusted base as C01.", "TLC trace validation (ApiTrace)", "5/C10"),
+    "C11": (MC, "ApiTrace!CbCheck: during each call the callback log must contain exactly the newly decoded (not received) source symbols, once "
+            "each, with ESI < k, size = symbol length and the right session; of_get_source_symbols_tab must report the callback's buffer (or a "
+            "library buffer when it returned NULL). Exhaustive subsets x {buf, null, mix} x both APIs and random histories.",
+            "For set_available_symbols a source symbol that the other submitted symbols already release may be either kept or decoded (the property does not say).",
+            "TLC trace validation (ApiTrace)", "5/C11"),
+    "C19": (MC, "PrngTrace.tla validates against ParkMiller.tla (Schrage step, exact floor scaling by bit-serial arithmetic): the first 10,002 "
+            "states step by step (10,000th = 1043618065), a walk of the real generator with checkpoints every window checked as "
+            "multiplication by 16807^window mod p (thorough: the full cycle of 2^31-2 steps, state 1 recurs exactly there), (state, maxv, "
+            "result) triples incl. Carta carry boundaries and both sides of 2^53, and the seeding acceptance table on 64-bit arguments.",
+            "Checkpoints: two cancelling errors inside one window would be missed.", "TLC trace validation (PrngTrace)", "5/C19"),
+    "C20": (MC, "BlockingTrace.tla validates every recorded (B,L,E) -> (N,I,A_large,A_small) of the real of_compute_blocking_struct against "
+            "Blocking.tla (exact integer arithmetic on base-2^15 limbs): exhaustive T,B grids plus sampled tuples up to 2^32-1 incl. N >= 2^31; "
+            "BlockingModel.tla model-checks the definition itself.",
+            "Sampling beyond the exhaustive grid.", "TLC trace validation (BlockingTrace) + TLC model (BlockingModel)", "5/C20"),
     "C15": (MC, "For every recorded LDPC session TLC evaluates, on the session's own equations, whether the sum of all "
             "equations isolates the last repair symbol; a claim (OF_CRTL_LDPC_STAIRCASE_IS_LAST_SYMBOL_NULL) must imply "
             "it and must agree between encoder and decoder sessions of equal parameters. The LastNull lemma of the "
